@@ -23,3 +23,5 @@ FUNCTIONS = FUNCTIONS + ['soupsieve.css_match.CSSMatch.match_range', 'soupsieve.
 SHARDS = {'match_range': 8, 'parse_value': 8, 'match_selectors': 16, 'match_nth': 4}
 
 FUNCTIONS = FUNCTIONS + [q for q in KIDS if q not in FUNCTIONS]
+
+VALIDATION = [validate_bs4]
